@@ -1,4 +1,5 @@
 Require Import ExtrOcamlBasic ExtrOcamlNativeString.
-Require Import MPSV.OutFmt.OutModel.
+Require Import MPSV.OutFmt.OutModel MPSV.OutFmt.DpeModel.
 Extraction "../ocaml/outfmt.ml" decimal_parse decimal_value parsed_value parsed_unit sig_digits close_b radius_ge_b
-  round_sig_checked outfloat_plan zero_exp_fixed printed_digits gmp_digit_cap digits_for out_digit prec_digits prec_of_digits line_fields printed_lines count_roots.
+  round_sig_checked outfloat_plan zero_exp_fixed printed_digits gmp_digit_cap digits_for out_digit prec_digits prec_of_digits line_fields printed_lines count_roots
+  rn53 bexp mpf_get_rdpe get_dl out_text out_value rdpe_out_str rdpe_out_str_u gnuplot_component zero_exp_code zero_text max_digits f14_units.
